@@ -6,6 +6,7 @@ package main
 
 import (
 	"fmt"
+	"runtime"
 
 	"github.com/gocql/gocql"
 	"verif/engine/report"
@@ -34,7 +35,7 @@ const randomBlocks = 64
 var randomSuite = &suite{
 	name:     "random",
 	deciding: false,
-	memKiB:   1 << 20,
+	memKiB:   2 << 20,
 	blocks: func(thorough bool) int {
 		return randomBlocks
 	},
@@ -106,6 +107,7 @@ var randomSuite = &suite{
 			in := gocql.VerifC05FrameIn{ConnVersion: fc.connVersion, Raw: raw, Consumer: consumer, MaxIter: 1 << 12}
 			var a gocql.VerifC05FrameOut
 			alloc := c.measure(func() { a = gocql.VerifC05Frame(in) })
+			_ = runtime.GC
 			replay := map[string]interface{}{"suite": "random", "frame": fc.name, "conn_version": fc.connVersion, "raw_hex": fmt.Sprintf("%x", raw), "consumer": consumer}
 			if a.Panic != "" {
 				c.viol(fmt.Sprintf("panic:%s:%s", siteFromTrace(a.Stack), panicClass(a.Panic)), func() (string, map[string]interface{}) {
